@@ -462,7 +462,7 @@ pub fn run_checksum(out: &mut Out, thorough: bool, rng: &mut Rng) {
     }
     out.note(
         "domain",
-        "checksum: every length 0..=600 over all 95 characters (all three groups), BIP-380 vectors, real descriptors; all single substitutions (position x 94 replacements) of the listed strings; random 2-substitutions and <=4 first-group substitutions; malformed checksum syntax".into(),
+        "checksum: every length 0..=600 over all 95 characters (all three groups), BIP-380 vectors, real descriptors; all single substitutions (position x 94 replacements) of the listed strings; random 2-substitutions and <=4 first-group substitutions; malformed checksum syntax; engine fed in chunks (every 2-split, random multi-splits: the Formatter route); Display of Descriptor and of each inner type (Bare/Pkh/Wpkh/Sh/Wsh/Tr) = {:#} + '#' + spec checksum; corrupted checksummed strings through EVERY parser that accepts a checksum (Tree, Descriptor<String|DescriptorPublicKey|DefiniteDescriptorKey>, parse_descriptor, Wsh/Wpkh/Sh/Pkh/Bare/Tr, Miniscript in 4 contexts incl. from_str_insane / validation params / from_tree, Concrete, Semantic, WalletPolicy): all single substitutions of two accepted templates per route + random 2..4 substitutions; RAW TEXT corpus (harness/src/rawtext.rs: short strings, checksum lengths 0..9, '#' at every position, nesting/arity +-1 around every limit, every character class at every position of 41 templates, name look-alikes, numbers around every boundary in every numeric position) through 24 parse+Display round-trip routes".into(),
     );
 }
 
@@ -590,9 +590,204 @@ pub fn run_desc_depth(out: &mut Out) {
     }
 }
 
+/// R1/R4: the engine is fed in CHUNKS by `checksum::Formatter` (one `write_str` per Display
+/// piece); its class accumulator lives across calls.  Every 2-split of short strings (all
+/// residues mod 3 of both parts), random multi-splits of long ones.
+pub fn run_chunked(out: &mut Out, rng: &mut Rng) {
+    let chunked = |parts: &[&str]| -> String {
+        catch_unwind(AssertUnwindSafe(|| {
+            let mut eng = Engine::new();
+            for p in parts {
+                if let Err(e) = eng.input(p) {
+                    return format!("ERR:{}", cs_err(&e));
+                }
+            }
+            eng.checksum()
+        }))
+        .unwrap_or_else(|_| "PANIC".into())
+    };
+    let mut bodies: Vec<String> = vec!["".into(), "a".into(), "ab".into(), "abc".into(), "wpkh(A)".into(), INPUT_CHARSET.into()];
+    bodies.extend(descriptor_bodies().into_iter().take(6));
+    for b in &bodies {
+        let chars: Vec<char> = b.chars().collect();
+        let n = chars.len();
+        let splits: Vec<usize> = if n <= 100 { (0..=n).collect() } else { (0..=n).step_by(7).chain(0..=6).chain(n - 6..=n).collect() };
+        for k in splits {
+            let (l, r): (String, String) = (chars[..k].iter().collect(), chars[k..].iter().collect());
+            out.line(&format!("J cschunk {} {} {}", hex(b), k, chunked(&[&l, &r])), "ok");
+        }
+        for _ in 0..20 {
+            // 3..6 pieces, empty pieces allowed
+            let mut cuts: Vec<usize> = (0..2 + rng.below(4)).map(|_| rng.below(n + 1)).collect();
+            cuts.sort();
+            let mut parts: Vec<String> = vec![];
+            let mut prev = 0;
+            for c in cuts.iter().chain(std::iter::once(&n)) {
+                parts.push(chars[prev..*c].iter().collect());
+                prev = *c;
+            }
+            let refs: Vec<&str> = parts.iter().map(|x| x.as_str()).collect();
+            let tag: Vec<String> = cuts.iter().map(|c| c.to_string()).collect();
+            out.line(&format!("J cschunk {} {} {}", hex(b), tag.join(","), chunked(&refs)), "ok");
+        }
+    }
+    // used engine: `checksum_chars` consumes the state (it feeds the pending class symbol and the
+    // target residue into the SAME engine) - a second call answers something else.  Not a claim of
+    // the property (the Formatter asks once): recorded as an observation.
+    let twice = catch_unwind(AssertUnwindSafe(|| {
+        let mut e = Engine::new();
+        let _ = e.input("wpkh(A)");
+        (e.checksum(), e.checksum())
+    }));
+    if let Ok((a, b)) = twice {
+        if a != b {
+            out.count("observation: Engine::checksum called twice on one engine gives two different strings");
+            out.note("observation_engine_reuse", format!("wpkh(A): first {} second {}", a, b));
+        }
+    }
+}
+
+/// R1: the checksum a DISPLAY prints (route `checksum::Formatter`, chunked input) through
+/// `Descriptor` and through each inner type: `{}` = `{:#}` + "#" + SPEC checksum of `{:#}`
+pub fn run_display_routes(out: &mut Out) {
+    type Pk = DescriptorPublicKey;
+    for body in descriptor_bodies() {
+        let r = catch_unwind(AssertUnwindSafe(|| -> Vec<(String, String, String)> {
+            let mut v = vec![];
+            let d = match Descriptor::<Pk>::from_str(&body) {
+                Ok(d) => d,
+                Err(_) => return v,
+            };
+            v.push(("Descriptor".to_string(), format!("{:#}", d), format!("{}", d)));
+            match &d {
+                Descriptor::Bare(x) => v.push(("Bare".into(), format!("{:#}", x), format!("{}", x))),
+                Descriptor::Pkh(x) => v.push(("Pkh".into(), format!("{:#}", x), format!("{}", x))),
+                Descriptor::Wpkh(x) => v.push(("Wpkh".into(), format!("{:#}", x), format!("{}", x))),
+                Descriptor::Sh(x) => v.push(("Sh".into(), format!("{:#}", x), format!("{}", x))),
+                Descriptor::Wsh(x) => v.push(("Wsh".into(), format!("{:#}", x), format!("{}", x))),
+                Descriptor::Tr(x) => v.push(("Tr".into(), format!("{:#}", x), format!("{}", x))),
+            }
+            // Debug must not be mistaken for Display; `to_string` is Display
+            v.push(("Descriptor::to_string".into(), format!("{:#}", d), d.to_string()));
+            v
+        }));
+        match r {
+            Err(_) => out.line(&format!("J csdisplay PANIC {} -", hex(&body)), "ok"),
+            Ok(v) => {
+                for (route, alt, disp) in v {
+                    out.line(&format!("J csdisplay {} {} {}", route, hex(&alt), hex(&disp)), "ok");
+                }
+            }
+        }
+    }
+}
+
+/// R1: corrupted checksummed strings through EVERY parser that accepts a `#checksum`
+/// (not only `verify_checksum` and `Descriptor<DescriptorPublicKey>`): all single substitutions of
+/// one or two accepted templates per route + random double / in-group substitutions
+pub fn run_detect_routes(out: &mut Out, rng: &mut Rng) {
+    use crate::c11expr::rawtext;
+    let cs = charset();
+    let mut templates: Vec<String> = rawtext::short_templates().into_iter().filter(|t| !t.contains('#')).collect();
+    // real-key templates for the routes over DescriptorPublicKey / DefiniteDescriptorKey
+    templates.extend(rawtext::long_templates().into_iter().filter(|t| t.contains('(')));
+    for (rname, f) in rawtext::routes() {
+        if matches!(rname, "verify_checksum" | "checksum::Engine::input" | "parse_num" | "parse_num_nonzero" | "DescriptorPublicKey" | "DescriptorSecretKey" | "DefiniteDescriptorKey") {
+            continue; // no checksum syntax (keys), or judged by csdetect already
+        }
+        let tag = rname.replace(' ', "");
+        let mut used = 0;
+        for t in &templates {
+            if used >= 2 { break; }
+            let c = impl_checksum(t);
+            if c.len() != 8 || !c.is_ascii() { continue; }
+            let printed = format!("{}#{}", t, c);
+            if rawtext::guarded(|| f(&printed)) != Some(true) { continue; }
+            used += 1;
+            let chars: Vec<char> = printed.chars().collect();
+            let (mut total, mut rejected) = (0u64, 0u64);
+            // long (real-key) templates: structural positions, the checksum part and every 4th other position
+            let long = chars.len() > 60;
+            for p in 0..chars.len() {
+                if long && !(p % 4 == 0 || p + 10 >= chars.len() || "()[]{},/<>;:'*#".contains(chars[p])) { continue; }
+                for &ch in &cs {
+                    if ch == chars[p] { continue; }
+                    let t2 = subst(&chars, &[(p, ch)]);
+                    let v = match rawtext::guarded(|| f(&t2)) { None => "PANIC", Some(true) => "accepted", Some(false) => "rejected" };
+                    total += 1;
+                    if v == "rejected" { rejected += 1; } else {
+                        out.line(&format!("J csdetectr {} 1 {} {} {}", tag, hex(&printed), hex(&t2), v), "ok");
+                    }
+                }
+            }
+            if long {
+                out.line(&format!("J csdetectagg 1 {} {} {} 0", hex(&printed), total, rejected), "ok");
+            } else {
+                out.line(&format!("J csdetectrall {} 1 {} {} {}", tag, hex(&printed), total, rejected), "ok");
+            }
+            let (mut tried, mut rej) = ([0u64; 5], [0u64; 5]);
+            for i in 0..600u64 {
+                let (k, g0) = match i % 4 { 0 | 1 => (2usize, false), 2 => (3 + (i as usize / 4) % 2, true), _ => (2, true) };
+                if let Some(t2) = random_subst(rng, &chars, k, g0) {
+                    let v = match rawtext::guarded(|| f(&t2)) { None => "PANIC", Some(true) => "accepted", Some(false) => "rejected" };
+                    tried[k] += 1;
+                    if v == "rejected" { rej[k] += 1; } else {
+                        out.line(&format!("J csdetectr {} {} {} {} {}", tag, k, hex(&printed), hex(&t2), v), "ok");
+                    }
+                }
+            }
+            for k in 2..=4 {
+                if tried[k] > 0 {
+                    out.line(&format!("J csdetectagg {} {} {} {} 0", k, hex(&printed), tried[k], rej[k]), "ok");
+                }
+            }
+        }
+        out.note(&format!("csdetectr_templates {}", tag), used.to_string());
+        if used == 0 { out.count(&format!("csdetectr route without accepted template {}", tag)); }
+    }
+}
+
+/// R1/R3 for the round-trip claim: every string of the raw corpus that a parser ACCEPTS yields an
+/// object; `parse(Display(x)) == x` and Display is a fixed point - through every text type
+pub fn run_raw_roundtrip(out: &mut Out) {
+    use crate::c11expr::rawtext;
+    let corpus = rawtext::raw_corpus();
+    for (rname, f) in rawtext::rt_routes() {
+        let tag = rname.replace(' ', "");
+        let mut agg: std::collections::BTreeMap<&str, (u64, u64)> = Default::default();
+        for (class, s) in &corpus {
+            let r = rawtext::guarded(|| f(s));
+            let v = match r { None => Some("PANIC"), Some(x) => x };
+            if let Some(v) = v {
+                let e = agg.entry(class).or_insert((0, 0));
+                e.0 += 1;
+                if v != "ok" {
+                    e.1 += 1;
+                    out.line(&format!("J rawrt {} {} {}", tag, hex(s), v), "ok");
+                } else if e.0 % 211 == 0 {
+                    out.line(&format!("J rawrt {} {} ok", tag, hex(s)), "ok");
+                }
+            }
+        }
+        for (class, (n, nbad)) in agg {
+            out.line(&format!("J rawrtagg {} {} {} {}", class, tag, n, nbad), "ok");
+        }
+    }
+}
+
 pub fn run(out: &mut Out, thorough: bool, seed: u64) {
     let mut rng = Rng(seed ^ 0xC10);
+    let t0 = std::time::Instant::now();
     run_checksum(out, thorough, &mut rng);
+    let t1 = t0.elapsed().as_millis();
+    run_chunked(out, &mut rng);
+    run_display_routes(out);
+    let t2 = t0.elapsed().as_millis();
+    run_detect_routes(out, &mut rng);
+    let t3 = t0.elapsed().as_millis();
+    run_raw_roundtrip(out);
+    let t4 = t0.elapsed().as_millis();
     run_desc_depth(out);
+    out.note("ms_checksum_chunk_detectroutes_rawrt", format!("{} {} {} {}", t1, t2 - t1, t3 - t2, t4 - t3));
     crate::c10b::run_roundtrip(out, thorough, &mut rng);
 }
